@@ -1350,3 +1350,262 @@ mod probe {
         std::mem::forget(cw);
     }
 }
+
+// =================================================================================================
+// C10: bus events for new entities - per-connection de-duplication
+// =================================================================================================
+#[cfg(any(verif_unit = "all", verif_unit = "bus_events", verif_unit = "bus_events_t"))]
+mod bus_events {
+    use super::*;
+    use aldrin_core::BusListenerFilter;
+
+    /// Two listeners (cookies 40, 41) in this slot order; owners and configuration concrete per
+    /// instantiation, the event's ids symbolic.
+    fn add_listener(w: &mut World, cookie: u8, owner: u8, scope: Option<BusListenerScope>, filter: Option<BusListenerFilter>) {
+        let mut l = BusListener::new(conn(owner));
+        if let Some(f) = filter {
+            l.add_filter(f);
+        }
+        if let Some(s) = scope {
+            l.start(s);
+        }
+        w.b.bus_listeners.insert(listener_cookie(cookie), l);
+        csv::bus_listeners_mut(w.b.conns.get_mut(&conn(owner)).unwrap()).insert(listener_cookie(cookie));
+    }
+
+    fn any_event() -> BusEvent {
+        let o = ObjectId::new(obj_uuid(any_below(2)), obj_cookie(kani::any()));
+        let s = ServiceId::new(o, svc_uuid(any_below(2)), svc_cookie(kani::any()));
+        match kani::any::<u8>() % 4 {
+            0 => BusEvent::ObjectCreated(o),
+            1 => BusEvent::ObjectDestroyed(o),
+            2 => BusEvent::ServiceCreated(s),
+            _ => BusEvent::ServiceDestroyed(s),
+        }
+    }
+
+    /// first listener (visited first) and second listener: (owner, started-with-new?, has a filter that matches everything?)
+    fn dedup_lemma(first: (u8, bool, bool), second: (u8, bool, bool)) {
+        let mut w = new_world();
+        add_conn(&mut w, 0);
+        add_conn(&mut w, 1);
+        let cfg = |c: (u8, bool, bool)| {
+            let scope = if c.1 { Some(if kani::any() { BusListenerScope::New } else { BusListenerScope::All }) } else if kani::any() { Some(BusListenerScope::Current) } else { None };
+            (c.0, scope, c.2)
+        };
+        let ev = any_event();
+        let is_obj = matches!(ev, BusEvent::ObjectCreated(_) | BusEvent::ObjectDestroyed(_));
+        let all = |m: bool| if m { Some(if is_obj { BusListenerFilter::any_object() } else { BusListenerFilter::any_object_any_service() }) } else if kani::any() { Some(if is_obj { BusListenerFilter::any_object_any_service() } else { BusListenerFilter::any_object() }) } else { None };
+        let (o1, s1, m1) = cfg(first);
+        let (o2, s2, m2) = cfg(second);
+        add_listener(&mut w, 40, o1, s1, all(m1));
+        add_listener(&mut w, 41, o2, s2, all(m2));
+        w.b.emit_bus_event(&mut w.st, ev);
+        let mut c = 0u8;
+        while c < 2 {
+            let wants = (o1 == c && first.1 && first.2) || (o2 == c && second.1 && second.2);
+            let got = count_kind_to(c, K::EmitBusEvent, |e| !e.has_serial);
+            assert!(got == if wants && !send_fails(c) { 1 } else { 0 }, "each matching new event exactly once per connection, regardless of how many of its listeners match or in which order they are visited");
+            assert!(log_count_to(c) == got);
+            c += 1;
+        }
+        std::mem::forget(w);
+    }
+
+    macro_rules! inst {
+        ($($name:ident = ($a:expr, $b:expr);)*) => {$(
+            #[kani::proof]
+            #[kani::unwind(18)]
+            fn $name() {
+                dedup_lemma($a, $b);
+            }
+        )*};
+    }
+
+    inst! {
+        q_c10_c11_bus_event_nonmatching_then_matching_same_conn = ((0, true, false), (0, true, true));
+        q_c10_c11_bus_event_unstarted_then_matching_same_conn = ((0, false, true), (0, true, true));
+        q_c10_c11_bus_event_both_matching_same_conn = ((0, true, true), (0, true, true));
+        q_c10_c11_bus_event_matching_then_nonmatching_same_conn = ((0, true, true), (0, true, false));
+        q_c10_c11_bus_event_two_conns_both_matching = ((0, true, true), (1, true, true));
+        q_c10_c11_bus_event_two_conns_one_matching = ((1, false, true), (0, true, true));
+        q_c10_c11_bus_event_none_matching = ((0, true, false), (1, false, true));
+    }
+
+    #[cfg(verif_replay)]
+    include!("/verif/.cache/replay/broker__verif__bus_events.rs");
+}
+
+// =================================================================================================
+// C09 / C03: connection teardown leaves no residue, every affected peer is told once
+// =================================================================================================
+#[cfg(any(verif_unit = "all", verif_unit = "shutdown", verif_unit = "shutdown_t"))]
+mod shutdown {
+    use super::*;
+
+    /// Connection 0 leaves. Concrete shape, symbolic scalars (event id, serials, capacities,
+    /// versions, peer liveness): it owns object (0, 10) with service (0, 20); connection 1 is
+    /// subscribed to one event of that service and has one call pending on it.
+    fn owner_leaves(with_sub: bool, with_call: bool) {
+        let mut w = new_world();
+        add_conn(&mut w, 0);
+        add_conn(&mut w, 1);
+        add_object(&mut w, 0, 10, 0);
+        add_service(&mut w, 0, 10, 0, 20, ServiceInfo::new(1));
+        let ev: u32 = kani::any();
+        let s: u32 = kani::any();
+        let cs: u32 = kani::any();
+        if with_sub {
+            w.b.svcs.get_mut(&(obj_uuid(0), svc_uuid(0))).unwrap().subscribe_event(ev, conn(1));
+            w.b.conns.get_mut(&conn(1)).unwrap().subscribe_event(svc_cookie(20), ev);
+        }
+        if with_call {
+            install_call(&mut w, &CallSpec { present: true, serial: s, caller: 1, caller_serial: cs, aborted: false }, 0);
+        }
+        let send_shutdown: bool = kani::any();
+        w.b.shutdown_connection(&mut w.st, &conn(0), send_shutdown);
+        w.b.process_loop_result(&mut w.st);
+        // no residue
+        assert!(!has_conn(&w, 0));
+        assert!(w.b.objs.is_empty() && w.b.obj_uuids.is_empty(), "its objects are gone");
+        assert!(w.b.svcs.is_empty() && w.b.svc_uuids.is_empty(), "and their services");
+        assert!(smv::elems(&w.b.function_calls).is_empty(), "no pending call survives its service");
+        assert!(!w.st.has_work_left());
+        if has_conn(&w, 1) {
+            let c1 = w.b.conns.get(&conn(1)).unwrap();
+            assert!(csv::events(c1).is_empty(), "the peer's subscriptions to the dead service end");
+            assert!(csv::calls(c1).is_empty(), "the peer's call bookkeeping is released");
+            let destroyed = count_kind_to(1, K::ServiceDestroyed, |e| e.cookie == 20);
+            assert!(destroyed == if with_sub { 1 } else { 0 }, "a subscribed peer is told once that the service is gone");
+            let replies = count_kind_to(1, K::CallFunctionReply, |e| e.serial == cs && e.code == 3);
+            assert!(replies == if with_call { 1 } else { 0 }, "a pending call is answered once with InvalidService");
+            assert!(log_count_to(1) == destroyed + replies, "nothing else reaches the peer");
+        } else {
+            // the peer's transport failed while it was being told: it is torn down as well
+            assert!(send_fails(1));
+            assert!(w.b.conns.is_empty());
+        }
+        let to0 = log_count_to(0);
+        assert!(to0 == if send_shutdown && !send_fails(0) { 1 } else { 0 });
+        if to0 == 1 {
+            assert!(find_where(|e| e.to == 0).unwrap().kind == K::Shutdown, "a forced shutdown is announced to the connection");
+        }
+        std::mem::forget(w);
+    }
+
+    /// Connection 1 leaves while subscribed to / calling a service of connection 0: the owner is
+    /// told to stop producing the event and to abort the call.
+    fn subscriber_leaves() {
+        let mut w = new_world();
+        add_conn(&mut w, 0);
+        add_conn(&mut w, 1);
+        add_object(&mut w, 0, 10, 0);
+        add_service(&mut w, 0, 10, 0, 20, ServiceInfo::new(1));
+        let ev: u32 = kani::any();
+        let s: u32 = kani::any();
+        let cs: u32 = kani::any();
+        w.b.svcs.get_mut(&(obj_uuid(0), svc_uuid(0))).unwrap().subscribe_event(ev, conn(1));
+        w.b.conns.get_mut(&conn(1)).unwrap().subscribe_event(svc_cookie(20), ev);
+        install_call(&mut w, &CallSpec { present: true, serial: s, caller: 1, caller_serial: cs, aborted: false }, 0);
+        let owner_minor = minor_of(&w, 0);
+        w.b.shutdown_connection(&mut w.st, &conn(1), false);
+        w.b.process_loop_result(&mut w.st);
+        assert!(!has_conn(&w, 1) && !w.st.has_work_left());
+        if has_conn(&w, 0) {
+            assert!(svv::events(w.b.svcs.get(&(obj_uuid(0), svc_uuid(0))).unwrap()).is_empty(), "no subscriber entry of the dead connection stays");
+            let unsub = count_kind_to(0, K::UnsubscribeEvent, |e| e.cookie == 20 && e.aux == ev);
+            assert!(unsub == 1, "the owner is told to stop producing the event: 1 -> 0 caused by a disconnect");
+            let abort = count_kind_to(0, K::AbortFunctionCall, |e| e.serial == s);
+            assert!(abort == if owner_minor >= 16 { 1 } else { 0 }, "the owner is told to abort iff it speaks >= 1.16");
+            assert!(log_count_to(0) == unsub + abort);
+            assert!(call_pending(&w, s) == Some((cs, 1, true)), "the call stays, marked aborted, until the owner answers or its service goes");
+        } else {
+            assert!(send_fails(0) && w.b.conns.is_empty() && w.b.objs.is_empty() && w.b.svcs.is_empty());
+        }
+        assert!(log_count_to(1) == 0, "nothing is sent to the connection that left");
+        std::mem::forget(w);
+    }
+
+    #[kani::proof]
+    #[kani::unwind(18)]
+    fn q_c09_c03_owner_leaves_with_subscriber() {
+        owner_leaves(true, false);
+    }
+
+    #[kani::proof]
+    #[kani::unwind(18)]
+    fn q_c09_c02_owner_leaves_with_pending_call() {
+        owner_leaves(false, true);
+    }
+
+    #[kani::proof]
+    #[kani::unwind(18)]
+    fn t_c09_c02_c03_owner_leaves_with_both() {
+        owner_leaves(true, true);
+    }
+
+    #[kani::proof]
+    #[kani::unwind(18)]
+    fn q_c09_c02_c04_subscriber_and_caller_leaves() {
+        subscriber_leaves();
+    }
+
+    #[cfg(verif_replay)]
+    include!("/verif/.cache/replay/broker__verif__shutdown.rs");
+}
+
+// =================================================================================================
+// C11: messages that only a broker may send are refused, nothing else happens
+// =================================================================================================
+#[cfg(any(verif_unit = "all", verif_unit = "wrongdir", verif_unit = "wrongdir_t"))]
+mod wrongdir {
+    use super::*;
+    use aldrin_core::message::{Connect, Connect2, ConnectReply};
+
+    fn refused(msg: Message) {
+        let mut w = gate_world();
+        let r = w.b.handle_message(&mut w.st, &conn(0), msg);
+        assert!(r.is_err(), "a broker-to-client message sent by a client closes that connection");
+        assert!(log_len() == 0 && bus_is_empty(&w), "and has no other effect");
+        std::mem::forget(w);
+    }
+
+    macro_rules! wrong {
+        ($($name:ident = $msg:expr;)*) => {$(
+            #[kani::proof]
+            #[kani::unwind(18)]
+            fn $name() {
+                refused($msg);
+            }
+        )*};
+    }
+
+    wrong! {
+        q_c11_wrongdir_connect = Message::Connect(Connect { version: kani::any(), value: small_value() });
+        q_c11_wrongdir_connect2 = Message::Connect2(Connect2 { major_version: kani::any(), minor_version: kani::any(), value: small_value() });
+        q_c11_wrongdir_connect_reply = Message::ConnectReply(ConnectReply::IncompatibleVersion(kani::any()));
+        q_c11_wrongdir_create_object_reply = Message::CreateObjectReply(CreateObjectReply { serial: kani::any(), result: CreateObjectResult::DuplicateObject });
+        q_c11_wrongdir_destroy_object_reply = Message::DestroyObjectReply(DestroyObjectReply { serial: kani::any(), result: DestroyObjectResult::Ok });
+        q_c11_wrongdir_channel_end_closed = Message::ChannelEndClosed(ChannelEndClosed { cookie: chan_cookie(kani::any()), end: ChannelEnd::Sender });
+        q_c11_wrongdir_channel_end_claimed = Message::ChannelEndClaimed(ChannelEndClaimed { cookie: chan_cookie(kani::any()), end: ChannelEndWithCapacity::Receiver(kani::any()) });
+        q_c11_wrongdir_item_received = Message::ItemReceived(ItemReceived { cookie: chan_cookie(kani::any()), value: small_value() });
+        q_c11_wrongdir_sync_reply = Message::SyncReply(SyncReply { serial: kani::any() });
+        q_c11_wrongdir_service_destroyed = Message::ServiceDestroyed(ServiceDestroyed { service_cookie: svc_cookie(kani::any()) });
+        q_c11_wrongdir_emit_bus_event = Message::EmitBusEvent(EmitBusEvent { cookie: None, event: BusEvent::ObjectCreated(ObjectId::new(obj_uuid(kani::any()), obj_cookie(kani::any()))) });
+        q_c11_wrongdir_current_finished = Message::BusListenerCurrentFinished(BusListenerCurrentFinished { cookie: listener_cookie(kani::any()) });
+    }
+
+    /// A well-behaved request is still served on the same (untouched) state: Sync is answered.
+    #[kani::proof]
+    #[kani::unwind(18)]
+    fn q_c11_sync_is_answered() {
+        let mut w = gate_world();
+        let serial: u32 = kani::any();
+        let r = w.b.handle_message(&mut w.st, &conn(0), Message::Sync(Sync { serial }));
+        assert!(r.is_ok() && log_len() == 1 && log(0).kind == K::SyncReply && log(0).serial == serial && log(0).to == 0);
+        std::mem::forget(w);
+    }
+
+    #[cfg(verif_replay)]
+    include!("/verif/.cache/replay/broker__verif__wrongdir.rs");
+}
